@@ -574,7 +574,7 @@ fn head(track: bool) -> impl Strategy<Value = HeadS> {
 }
 
 fn elst_s(max: usize) -> impl Strategy<Value = ElstS> {
-    (ver01(), flags24(), prop::collection::vec((u64v(), u64v(), u16v(), u16v()), 0..=max)).prop_map(|(version, flags, entries)| {
+    (ver01(), flags24(), list((u64v(), u64v(), u16v(), u16v()), max)).prop_map(|(version, flags, entries)| {
         let clip = |x: u64| if version == 0 { x & 0xffff_ffff } else { x };
         ElstS { version, flags, entries: entries.into_iter().map(|e| (clip(e.0), clip(e.1), e.2, e.3)).collect() }
     })
@@ -634,7 +634,7 @@ fn tfhd_s() -> impl Strategy<Value = TfhdS> {
 }
 
 fn trun_s(max: usize) -> impl Strategy<Value = TrunS> {
-    (anyver(), prop_oneof![3 => Just(0u32), 1 => (0u32..0x100_0000).prop_map(|x| x & !0xf05)], prop::option::of(any::<i32>()), prop::option::of(u32v()), any::<[bool; 4]>(), prop::collection::vec((u32v(), u32v(), u32v(), u32v()), 0..=max)).prop_map(|(version, extra_flags, data_offset, first_flags, h, samples)| TrunS { version, extra_flags, data_offset, first_flags, has_dur: h[0], has_size: h[1], has_flags: h[2], has_cts: h[3], samples })
+    (anyver(), prop_oneof![3 => Just(0u32), 1 => (0u32..0x100_0000).prop_map(|x| x & !0xf05)], prop::option::of(any::<i32>()), prop::option::of(u32v()), any::<[bool; 4]>(), list((u32v(), u32v(), u32v(), u32v()), max)).prop_map(|(version, extra_flags, data_offset, first_flags, h, samples)| TrunS { version, extra_flags, data_offset, first_flags, has_dur: h[0], has_size: h[1], has_flags: h[2], has_cts: h[3], samples })
 }
 
 fn data_s() -> impl Strategy<Value = DataS> {
@@ -652,8 +652,20 @@ fn meta_s() -> impl Strategy<Value = MetaS> {
     ]
 }
 
+/// table lengths: usually 0..=max; one draw in forty has a length at or around the sizes at which
+/// block-wise readers and writers change behaviour (2^k entries, 64 KiB of records)
+pub const BIG_LENS: [usize; 14] = [255, 256, 257, 1000, 1023, 1024, 1025, 2048, 3072, 4096, 4097, 5461, 5462, 8192];
+
+fn list<T: std::fmt::Debug + Clone + 'static>(elem: impl Strategy<Value = T> + 'static, max: usize) -> impl Strategy<Value = Vec<T>> {
+    let elem = elem.boxed();
+    prop_oneof![
+        39 => prop::collection::vec(elem.clone(), 0..=max),
+        1 => (prop::collection::vec(elem, 1..=5), 0usize..BIG_LENS.len()).prop_map(|(seed, li)| seed.iter().cycle().take(BIG_LENS[li]).cloned().collect()),
+    ]
+}
+
 fn table<T: std::fmt::Debug + Clone + 'static>(elem: impl Strategy<Value = T> + 'static, max: usize) -> impl Strategy<Value = (u8, u32, Vec<T>)> {
-    (anyver(), flags24(), prop::collection::vec(elem, 0..=max))
+    (anyver(), flags24(), list(elem, max))
 }
 
 fn stsd_entry(max: usize) -> BoxedStrategy<Spec> {
@@ -689,10 +701,14 @@ pub fn strategy(kind: &str, max: usize) -> BoxedStrategy<Spec> {
         "stsc" => table((1u32..1000, 0u32..1000, u32v()), max)
             .prop_map(|(version, flags, raw)| {
                 // first_chunk strictly increasing from the drawn increments
+                // (the sample numbering implied by the table must fit 32 bits: long tables use
+                // small runs)
+                let long = raw.len() > 64;
                 let mut fc = 0u32;
                 let entries = raw
                     .into_iter()
                     .map(|(inc, spc, sdi)| {
+                        let (inc, spc) = if long { (1 + inc % 16, spc % 16) } else { (inc, spc) };
                         fc += inc;
                         (fc, spc, sdi)
                     })
@@ -700,7 +716,7 @@ pub fn strategy(kind: &str, max: usize) -> BoxedStrategy<Spec> {
                 Spec::Stsc { version, flags, entries }
             })
             .boxed(),
-        "stsz" => (anyver(), flags24(), any::<bool>(), 1u32..=u32::MAX, u32v(), prop::collection::vec(u32v(), 0..=max))
+        "stsz" => (anyver(), flags24(), any::<bool>(), 1u32..=u32::MAX, u32v(), list(u32v(), max))
             .prop_map(|(version, flags, constant, size, count, sizes)| if constant { Spec::Stsz { version, flags, sample_size: size, sample_count: count, sizes: vec![] } } else { Spec::Stsz { version, flags, sample_size: 0, sample_count: sizes.len() as u32, sizes } })
             .boxed(),
         "avcC" => avcc_s(max).prop_map(Spec::AvcC).boxed(),
